@@ -194,7 +194,10 @@ pub fn plan(id: &str) -> Option<Plan> {
             rule: "scenario = hedge layer (max 1-4 attempts; default/fixed 0,10,50ms/no_delay/per-attempt delay table) + 1-3 requests whose k-th attempt has scripted latency from {0, d-1ms, d, d+1ms, 2d, 3d, 10d, never} and outcome ok/err; oracle from the observed start instant of every inner call and the observed completions; non-trivial iff >=2 attempts started and >=1 attempt failed; distinct = (attempt start instants, resolution, config) signature",
             assumptions: BASE_ASSUMPTIONS.to_vec(),
             floor: 50,
-            engines: vec![Engine { name: "sim", salt: 1, quick: 6000, thorough: 2_000_000, serial: false, run: Box::new(|s, t| c12::scenario(s, t)) }],
+            engines: vec![
+                Engine { name: "sim", salt: 1, quick: 6000, thorough: 2_000_000, serial: false, run: Box::new(|s, t| c12::scenario(s, t)) },
+                Engine { name: "stress-loaded-executor", salt: 2, quick: 48, thorough: 640, serial: false, run: Box::new(|s, _t| c12::loaded_executor(s)) },
+            ],
             extra: None,
         },
         "C14" => Plan {
